@@ -1,0 +1,11 @@
+//go:build !verif
+
+// Package verifhook provides observation hooks for external verification
+// harnesses.  Without the "verif" build tag every hook is a no-op.
+package verifhook
+
+// Point marks a named yield point.
+func Point(name string) {}
+
+// Announce reports a DHT announce.
+func Announce(hash []byte, ipv6 bool, port uint16) {}
